@@ -81,7 +81,7 @@ Section WrapSpec.
         match parse_directive_text adm_class first (directive_content k (opt_lines o ++ X)) with
         | Ok p =>
             let '(attrs, warns) := o_opt_validate orc name (p_optblock p) in
-            do r <- bd (pos + N.of_nat (p_off p));
+            do r <- bd (pos + N.of_nat (p_off p - prepended_lines (is_colon k) (unlines (opt_lines o ++ X))));
             Ok (directive_warnings p warns pos
                 ++ [Node NAdm (name ++ attrs) (Some pos) (fst (fst r))], snd (fst r), false)
         | Raise e => Raise e
